@@ -15,6 +15,7 @@ def handle (line : String) : String :=
       | "hash" => Drv.opHash j
       | "auth" => Drv.opAuth j
       | "overlap" => Drv.opOverlap j
+      | "normpath" => Drv.opNormPath j
       | "storeops" => Drv.opStoreOps j
       | "loc" => Drv.opLoc j
       | "registry" => Drv.opRegistry j
